@@ -408,6 +408,42 @@ AStatsMerge(e) ==
                      IF props = {} \/ (e.res.kind = "ok" /\ val = exp) THEN {} ELSE props, exp, e.res)
        /\ Frame
 
+\* Statistics objects that live across calls (kept in dvrs under the handles the harness gives them).
+\* CollectionStats(field) returns an object of the caller; Merge(o) adds o to its receiver and touches
+\* nothing else - in particular no other statistics object and no segment (C15, C16).
+StatObj(r) == r \in DOMAIN dvrs /\ r >= 600000
+
+AStatsGet(e) ==
+    LET c == segs[e.seg].c
+        exp == Stats(c, e.field)
+        val == IF e.res.kind = "ok" THEN e.res.stats ELSE ZeroStats
+        sound == ContentLenIsSumFreq(c)
+        props == IF sound THEN {"C16"} \cup GProp(e) ELSE {}
+    IN /\ e.seg \in DOMAIN segs
+       /\ dvrs' = IF e.res.kind = "ok" THEN Put(dvrs, e.r, [kind |-> "stats", val |-> exp, sound |-> sound]) ELSE dvrs
+       /\ obs' = Obs("stats_get", props,
+                     IF props = {} THEN {} ELSE Judge(e.seg, props, e.res.kind, val, exp, ZeroStats), exp, e.res)
+       /\ UNCHANGED <<segs, files, pls, its, bms, built, digs>>
+
+AStatsAdd(e) ==
+    LET a == dvrs[e.r]
+        b == dvrs[e.r2]
+        exp == StatsAdd(a.val, b.val)
+        props == IF a.sound /\ b.sound THEN {"C16", "C15"} ELSE {}
+    IN /\ StatObj(e.r) /\ StatObj(e.r2)
+       /\ dvrs' = [dvrs EXCEPT ![e.r].val = exp]
+       /\ obs' = Obs("stats_add", props,
+                     IF props = {} \/ (e.res.kind = "ok" /\ e.res.stats = exp) THEN {} ELSE props, exp, e.res)
+       /\ UNCHANGED <<segs, files, pls, its, bms, built, digs>>
+
+AStatsRead(e) ==
+    LET a == dvrs[e.r]
+        props == IF a.sound THEN {"C16", "C15"} ELSE {}
+    IN /\ StatObj(e.r)
+       /\ obs' = Obs("stats_read", props,
+                     IF props = {} \/ (e.res.kind = "ok" /\ e.res.stats = a.val) THEN {} ELSE props, a.val, e.res)
+       /\ Frame
+
 -----------------------------------------------------------------------------
 (* Immutability (C15): digests of segments and caller-owned bitmaps never change *)
 
